@@ -71,6 +71,12 @@ META = {
         level_note="Timestamps restricted to the int64-nanosecond range. proto.Marshal refusing invalid UTF-8 is an accepted, counted outcome.",
         technique="property-based testing: round-trip oracle over boundary-product enumeration + rapid random fill",
     ),
+    "C13": dict(
+        level_text="All delivery permutations of three 4/5-vertex segment shapes plus random schedules (2-20 vertex segments with diamonds and two-depth parents, duplicates, retry steps, local proposals, invalid vertices); the final target ledger must contain the whole valid history with its declared edges, nothing twice, empty buffer.",
+        design_ref="DESIGN.md §4 C13",
+        level_note="The premise (V is valid) is established per case by a reference node fed parents-first; cases where it rejects are discarded and counted. Retry goes through the hook calling the real admission path.",
+        technique="property-based testing: schedule/permutation enumeration + rapid schedules, differential against parents-first delivery",
+    ),
 }
 
 def _na():
